@@ -100,6 +100,8 @@ def error_ellipse(vcv):
     :return: b, semi-minor axis
     :return: orientation, the orientation of the error ellipse
     """
+    # work in floats: squares of the elements of an integer-typed array overflow
+    vcv = np.asarray(vcv, dtype=float)
     z = sqrt((vcv[0, 0] - vcv[1, 1])**2 + 4 * vcv[0, 1]**2)
     a = sqrt(0.5 * (vcv[0, 0] + vcv[1, 1] + z))
     # clamp: for a singular vcv rounding can make the difference slightly negative
